@@ -65,7 +65,7 @@ def rule_S1(ctx):
     f = prog.fn("consensus.clade_probabilities")
     ex = extract(prog, f)
     sp = spec(prog, SPEC_CLADE_PROB, f)
-    same_events(ctx, "S1", "clade_probabilities: accumulation and normalisation of the counter", f, ex.calls("store_sub"), sp.calls("store_sub"), "counter updates")
+    same_events(ctx, "S1", "clade_probabilities: accumulation and normalisation of the counter", f, ex.calls("store_sub"), sp.calls("store_sub"), "counter updates", guards=True)
     same(ctx, "S1", "clade_probabilities returns the counter", f, ex.result, sp.result, "returned counter")
     gc = prog.fn("tree.utils.get_clades")
     exg = extract(prog, gc)
@@ -91,7 +91,7 @@ def s(in_file, out_table_file, out_tree_file, consensus_threshold=0.5, weight_ty
         shares = np.exp(scores - log_sum_exp(scores))
         graph = get_consensus_tree(trees, data=data, threshold=consensus_threshold, weighted=True, log_p_list=shares / shares.sum())
 """, w, no_inline=noin)
-    same_events(ctx, "S1", "write_consensus_results: trees and (normalised) weights handed to get_consensus_tree in both modes; threshold is the CLI value", w, ex.calls("get_consensus_tree"), sp.calls("get_consensus_tree"), "get_consensus_tree(...) calls")
+    same_events(ctx, "S1", "write_consensus_results: trees and (normalised) weights handed to get_consensus_tree in both modes; threshold is the CLI value", w, ex.calls("get_consensus_tree"), sp.calls("get_consensus_tree"), "get_consensus_tree(...) calls", guards=True)
     ctx.analysed(f, gc, w)
 
 
@@ -254,8 +254,8 @@ def run(ctx):
     # the clade sets that are counted: tree.utils.get_clades / _clades against the reference semantics
     from ._treespec import rule_TS
 
-    n = rule_TS(ctx, owners=["tree.utils"])
-    ctx.rule_min["TS"] = 2
+    n = rule_TS(ctx, owners=["tree.utils", "process_trace.consensus", "process_trace.process_trace"])
+    ctx.rule_min["TS"] = 6
 
 
 _C = "phyclone/process_trace/consensus.py"
@@ -283,4 +283,11 @@ SELFTEST = [
     {"name": "benign-rename-superset-locals", "kind": "benign", "file": _C, "old": "        candidate_superset_size = len(candidate_superset)\n\n        if candidate_superset_size == smallest_superset_size:\n            raise Exception(\"Inconsistent set of clades\")\n\n        if candidate_superset_size < smallest_superset_size:\n            smallest_superset_size = candidate_superset_size", "new": "        size = len(candidate_superset)\n\n        if size == smallest_superset_size:\n            raise Exception(\"Inconsistent set of clades\")\n\n        if smallest_superset_size > size:\n            smallest_superset_size = size"},
     {"name": "benign-division-as-multiply", "kind": "benign", "file": _C, "old": "            clades_counter[clade] = clades_counter[clade] / len(trees)", "new": "            clades_counter[clade] = (1 / len(trees)) * clades_counter[clade]"},
     {"name": "benign-threshold-greater-equal", "kind": "benign", "file": _C, "old": "if value > threshold])", "new": "if value >= threshold])"},
+    {"name": "TS-relabel-skips-roots", "kind": "break", "rule": "TS", "file": "phyclone/process_trace/consensus.py", "old": "    for root in roots(graph):\n        _relabel(root, result, graph)\n", "new": "    for root in roots(graph)[1:]:\n        _relabel(root, result, graph)\n"},
+    {"name": "TS-roots-are-non-roots", "kind": "break", "rule": "TS", "file": "phyclone/process_trace/consensus.py", "old": "if len(graph.in_edges(n)) == 0]", "new": "if len(graph.in_edges(n)) != 0]"},
+    {"name": "TS-idxs-not-attached", "kind": "break", "rule": ["TS", "S4"], "file": "phyclone/process_trace/consensus.py", "old": "    nx.set_node_attributes(new_tree, name=\"idxs\", values=idx_map)\n", "new": ""},
+    {"name": "TS-consensus-tree-without-edges", "kind": "break", "rule": "TS", "file": "phyclone/process_trace/process_trace.py", "old": "            new._graph.add_edge(parent_idx, child_idx, None)\n", "new": "            pass\n"},
+    {"name": "TS-consensus-tree-without-data", "kind": "break", "rule": "TS", "file": "phyclone/process_trace/process_trace.py", "old": "        new._internal_add_data_point_to_node(True, data[idx], node)\n", "new": "        pass\n"},
+    {"name": "S1-modes-swapped", "kind": "break", "rule": "S1", "file": "phyclone/process_trace/process_trace.py", "old": "    if weight_type == \"counts\":\n        weighted_consensus = False", "new": "    if weight_type != \"counts\":\n        weighted_consensus = False"},
+    {"name": "S1-normalise-in-weighted-mode-only-flipped", "kind": "break", "rule": "S1", "file": "phyclone/process_trace/consensus.py", "old": "    if not weighted:\n        for clade in clades_counter:", "new": "    if weighted:\n        for clade in clades_counter:"},
 ]
